@@ -4,7 +4,7 @@
 // Read/Write/Accept is a durable block. Everything the library does to a socket is
 // logged (bytes with their virtual write time, Close calls, deadline calls).
 //
-// The package uses only sync.Mutex, channels and timers so that the E3 instrumenter can
+// The package uses only simq.Mutex, channels and timers so that the E3 instrumenter can
 // rewrite it like the library code.
 package sim
 
@@ -16,6 +16,8 @@ import (
 	"os"
 	"sync"
 	"time"
+
+	"verif/simq"
 )
 
 // Chunk is one Write as seen on the wire.
@@ -25,34 +27,29 @@ type Chunk struct {
 }
 
 type half struct {
-	mu      sync.Mutex
-	buf     []byte
-	eof     bool // writer closed: reader sees EOF after draining buf
-	reset   bool // connection reset: reader and writer see an error at once
+	mu         simq.Mutex
+	buf        []byte
+	eof        bool // writer closed: reader sees EOF after draining buf
+	reset      bool // connection reset: reader and writer see an error at once
 	readerGone bool // the reading end called Close: writes into this half fail
-	limit   int  // 0 = unbounded; otherwise Write blocks while len(buf) >= limit
-	wake    chan struct{}
-	space   chan struct{}
-	written []Chunk // everything ever written into this half
+	limit      int  // 0 = unbounded; otherwise Write blocks while len(buf) >= limit
+	wake       chan struct{}
+	space      chan struct{}
+	written    []Chunk // everything ever written into this half
 }
 
 func newHalf() *half {
 	return &half{wake: make(chan struct{}, 1), space: make(chan struct{}, 1)}
 }
 
-func poke(ch chan struct{}) {
-	select {
-	case ch <- struct{}{}:
-	default:
-	}
-}
+func poke(ch chan struct{}) { simq.Poke(ch) }
 
 // Conn is one end of a simulated TCP connection.
 type Conn struct {
 	net      *Net
 	Name     string
 	rd, wr   *half
-	mu       sync.Mutex
+	mu       simq.Mutex
 	rdl, wdl time.Time
 	closedCh chan struct{}
 	once     sync.Once
@@ -87,12 +84,9 @@ func (n *Net) pipe(libName, peerName string) (lib, peer *Conn) {
 }
 
 func (c *Conn) isClosed() bool {
-	select {
-	case <-c.closedCh:
-		return true
-	default:
-		return false
-	}
+	c.mu.Lock()
+	defer c.mu.Unlock()
+	return c.Closed
 }
 
 // Read implements net.Conn.
@@ -299,6 +293,14 @@ func (c *Conn) SawEOF() bool {
 	return (c.rd.eof && len(c.rd.buf) == 0) || c.rd.reset
 }
 
+// RemoteClosed reports whether the other end has closed or reset the connection (unread
+// bytes may remain).
+func (c *Conn) RemoteClosed() bool {
+	c.rd.mu.Lock()
+	defer c.rd.mu.Unlock()
+	return c.rd.eof || c.rd.reset
+}
+
 // Received returns every chunk the other side has written towards this end (whether or
 // not it has been read), with virtual write times.
 func (c *Conn) Received() []Chunk {
@@ -341,7 +343,7 @@ func (c *Conn) SetWriteDeadline(t time.Time) error {
 // Listener is a simulated listening socket.
 type Listener struct {
 	net     *Net
-	mu      sync.Mutex
+	mu      simq.Mutex
 	backlog []*Conn
 	wake    chan struct{}
 	closed  chan struct{}
@@ -424,7 +426,7 @@ type DialRec struct {
 // Net is the simulated network of one execution.
 type Net struct {
 	start time.Time
-	mu    sync.Mutex
+	mu    simq.Mutex
 	// dial side
 	Plan      func(attempt int) DialAnswer // default: Accept
 	Dials     []DialRec
@@ -486,6 +488,22 @@ func (n *Net) TakePeer() *Conn {
 	p := n.peers[0]
 	n.peers = n.peers[1:]
 	return p
+}
+
+// WaitPeer is TakePeer that waits up to d (virtual time) for a dial to be accepted.
+func (n *Net) WaitPeer(d time.Duration) *Conn {
+	tm := time.NewTimer(d)
+	defer tm.Stop()
+	for {
+		if p := n.TakePeer(); p != nil {
+			return p
+		}
+		select {
+		case <-n.peerWake:
+		case <-tm.C:
+			return n.TakePeer()
+		}
+	}
 }
 
 // Listen is an hsms.ListenFunc.
